@@ -559,7 +559,12 @@ func init() {
 		return e.clock
 	}
 	intrinsics["time.Now"] = func(e *Exec, fn *ssa.Function, args []Value, caller *Frame) (Value, *GoPanic) {
-		return mkTime(e, clock(e)), nil
+		// the wall clock moves on between any two looks at it: every call returns an instant one millisecond
+		// after the previous one (one representative schedule; a symbolic advance makes the millisecond
+		// truncation of durations undecidable in practice). Code that mixes the wall clock with a driver's own
+		// virtual clock therefore sees a discrepancy, as it does natively.
+		e.clock = e.ctx.BinBV(OpAdd, clock(e), e.ctx.Const(64, 1000000))
+		return mkTime(e, e.clock), nil
 	}
 	intrinsics["(time.Time).Add"] = func(e *Exec, fn *ssa.Function, args []Value, caller *Frame) (Value, *GoPanic) {
 		return mkTime(e, e.ctx.BinBV(OpAdd, timeNs(args[0]), args[1].(*Term))), nil
